@@ -60,8 +60,17 @@ def run_item(item, job, interner, classes, workdir):
             oConfig = config.New(cla)
             rounds = int(job.get("rounds", 1)) if item.get("tag", "default") == "default" else 1
             res = None
+            with open(tmp, encoding="utf-8", errors="replace", newline="") as f:
+                last_text = f.read()
             for k in range(rounds):
                 if k > 0:
+                    # a further --fix of a text the previous --fix left untouched is the same deterministic run again
+                    with open(tmp, encoding="utf-8", errors="replace", newline="") as f:
+                        now = f.read()
+                    if now == last_text:
+                        rec["texts"].append(rec["texts"][-1])
+                        continue
+                    last_text = now
                     T.emit({"e": "Round", "k": k})
                 st0 = os.stat(tmp)
                 with open(tmp, "rb") as f:
